@@ -75,6 +75,8 @@ private:
 	asio::ip::tcp::socket m_server_connection;
 	// true while there is an outstanding write operation to the server
 	bool m_writing_to_server;
+	// true while the server's host name is being looked up
+	bool m_resolving = false;
 
 	// receive buffer for requests from the client. i.e. client -> proxy (us) -> server
 	char m_client_in_buffer[65536];
